@@ -52,10 +52,10 @@ Definition db_size (d : db) : Z :=
 Definition obs_db (d : db) (ranges : list (Z * Z)) (e : option err) : oobs :=
   (match e with Some _ => true | None => false end, db_size d, map (obs_chan d ranges) d).
 
-Fixpoint model_trace (g : gcfg) (ranges : list (Z * Z)) (d : db) (ops : list op) : list oobs :=
+Fixpoint model_trace (fx : bool) (g : gcfg) (ranges : list (Z * Z)) (d : db) (ops : list op) : list oobs :=
   match ops with
   | [] => []
-  | o :: r => let '(d', e) := step g d o in obs_db d' ranges e :: model_trace g ranges d' r
+  | o :: r => let '(d', e) := step fx g d o in obs_db d' ranges e :: model_trace fx g ranges d' r
   end.
 
 (* ---- flat encoding for comparison ---- *)
@@ -78,13 +78,27 @@ Fixpoint zlist_eqb (a b : list Z) : bool :=
   end.
 
 Definition case_ops (c : case_t) : list op := map fst (snd c).
-Definition case_model (c : case_t) : list oobs :=
+(* which code the correspondence compares against: /repo with the C04 fix commit *)
+Definition repo_fx : bool := true.
+
+Definition case_model_fx (fx : bool) (c : case_t) : list oobs :=
   let '(cap, thr, chs, ranges, steps) := c in
-  model_trace (mk_gcfg cap thr) ranges (init_db chs) (map fst steps).
+  model_trace fx (mk_gcfg cap thr) ranges (init_db chs) (map fst steps).
+Definition case_model (c : case_t) : list oobs := case_model_fx repo_fx c.
+Definition case_model_old (c : case_t) : list oobs :=
+  let '(cap, thr, chs, ranges, steps) := c in
+  model_trace false (mk_gcfg cap thr) ranges (init_db chs) (map fst steps).
 
 Definition mismatch (c : case_t) : bool :=
   let '(cap, thr, chs, ranges, steps) := c in
   negb (zlist_eqb (enc_list enc_oobs (case_model c)) (enc_list enc_oobs (map snd steps))).
+
+(* the same comparison against the model of the pinned upstream code (used by the
+   detection self-tests: reverting the fix commit must flip both) *)
+Definition mismatch_old (c : case_t) : bool :=
+  let '(cap, thr, chs, ranges, steps) := c in
+  negb (zlist_eqb (enc_list enc_oobs (case_model_old c)) (enc_list enc_oobs (map snd steps))).
+Definition mismatches_old (cs : list case_t) : list nat := find_idx mismatch_old cs.
 
 (* index of the first step whose observation differs (for diagnostics) *)
 Fixpoint first_diff (m i : list oobs) (n : nat) : option nat :=
